@@ -112,9 +112,21 @@ pub enum Op {
     RemoveBetween,
     /// remove an absent key above every pushed key
     RemoveAbove,
+    /// push a key equal to / below the last present item ON THE DEQUE ITSELF: it must panic, and
+    /// the deque must be unchanged for whoever catches the panic and carries on
+    BadPushEqual,
+    BadPushBelow,
 }
 
 pub const MAX_RANK: u8 = 7;
+
+/// The alphabet plus the rejected pushes performed on the object under test.
+pub fn all_ops_ext() -> Vec<Op> {
+    let mut v = all_ops();
+    v.push(Op::BadPushEqual);
+    v.push(Op::BadPushBelow);
+    v
+}
 
 pub fn all_ops() -> Vec<Op> {
     let mut v = vec![
@@ -143,10 +155,12 @@ impl Op {
             Op::Remove(r) => format!("remove#{}", r),
             Op::RemoveBetween => "remove_between".into(),
             Op::RemoveAbove => "remove_above".into(),
+            Op::BadPushEqual => "rejected_push(equal)".into(),
+            Op::BadPushBelow => "rejected_push(below)".into(),
         }
     }
     pub fn parse(s: &str) -> Option<Op> {
-        all_ops().into_iter().find(|o| o.name() == s)
+        all_ops_ext().into_iter().find(|o| o.name() == s)
     }
 }
 
@@ -289,6 +303,17 @@ where
             Op::RemoveAbove => {
                 let (k, v) = self.keys.last().copied().unwrap_or((0, 1));
                 self.remove_key(k + 1, v)?;
+            }
+            Op::BadPushEqual | Op::BadPushBelow => {
+                if let Some((k, v)) = self.m.iter().next_back().map(|(k, v)| (*k, *v)) {
+                    let key = if op == Op::BadPushEqual { k } else { k - 1 };
+                    let d = &mut self.d;
+                    let r = catch(std::panic::AssertUnwindSafe(|| d.push_back_or_panic(T::make(key, v))));
+                    if r.is_ok() {
+                        return Err(format!("push of key {} (not above the last item {}) did not panic", key, k));
+                    }
+                    // the model is unchanged: observe() right after this compares everything
+                }
             }
         }
         Ok(())
@@ -546,10 +571,11 @@ impl Dfs<'_> {
                         self.rep.sample(text);
                     }
                     if depth_left > 1 {
-                        let within = within_cap && {
-                            let sh = next.shape();
-                            sh.0 - sh.1 <= cap
-                        };
+                        let within = within_cap
+                            && (!<C as Cont<T>>::SPY || {
+                                let sh = next.shape();
+                                sh.0.saturating_sub(sh.1) <= cap
+                            });
                         self.go(&next, depth_left - 1, closure, cap, within);
                     } else {
                         self.rep.outcome(hash_of(&(
@@ -573,10 +599,11 @@ pub fn dfs<T: Conv, C: Cont<T>>(
     depth: usize,
     unit_base: &mut usize,
     prefix: &[Op],
+    ext: bool,
 ) where
     (): SortedDequeMarker<T, Key = T::K>,
 {
-    let ops = all_ops();
+    let ops = if ext { all_ops_ext() } else { all_ops() };
     // Non-initial start: the prefix history is executed first (same clone-before-each-op way).
     let mut st0: St<T, C> = St::new();
     for (i, op) in prefix.iter().enumerate() {
@@ -695,14 +722,17 @@ pub fn run(ctx: &Ctx) -> Report {
     }
     let depth = ctx.tier.pick(7, 8);
     let mut unit = 0usize;
-    dfs::<Pair, SpyVec<Pair>>(ctx, &mut rep, Some(&cl_pair), cap, depth, &mut unit, &[]);
-    dfs::<Whole, SpyVec<Whole>>(ctx, &mut rep, Some(&cl_whole), cap, depth, &mut unit, &[]);
-    dfs::<Pair, SmallVec<[Pair; 4]>>(ctx, &mut rep, None, cap, depth, &mut unit, &[]);
-    dfs::<Whole, Vec<Whole>>(ctx, &mut rep, None, cap, depth - 1, &mut unit, &[]);
+    dfs::<Pair, SpyVec<Pair>>(ctx, &mut rep, Some(&cl_pair), cap, depth, &mut unit, &[], false);
+    dfs::<Whole, SpyVec<Whole>>(ctx, &mut rep, Some(&cl_whole), cap, depth, &mut unit, &[], false);
+    dfs::<Pair, SmallVec<[Pair; 4]>>(ctx, &mut rep, None, cap, depth, &mut unit, &[], false);
+    dfs::<Whole, Vec<Whole>>(ctx, &mut rep, None, cap, depth - 1, &mut unit, &[], false);
     for p in prefixes() {
-        dfs::<Pair, SpyVec<Pair>>(ctx, &mut rep, None, cap, depth - 1, &mut unit, &p);
-        dfs::<Whole, Vec<Whole>>(ctx, &mut rep, None, cap, depth - 2, &mut unit, &p);
+        dfs::<Pair, SpyVec<Pair>>(ctx, &mut rep, None, cap, depth - 1, &mut unit, &p, false);
+        dfs::<Whole, Vec<Whole>>(ctx, &mut rep, None, cap, depth - 2, &mut unit, &p, false);
     }
+    // rejected pushes on the object itself (caught, then the history goes on), one level shallower
+    dfs::<Pair, SpyVec<Pair>>(ctx, &mut rep, None, cap, depth - 1, &mut unit, &[], true);
+    dfs::<Whole, Vec<Whole>>(ctx, &mut rep, None, cap, depth - 2, &mut unit, &[], true);
     dfs_straight::<Pair, SmallVec<[Pair; 4]>>(ctx, &mut rep, depth - 2, &mut unit);
     dfs_straight::<Whole, Vec<Whole>>(ctx, &mut rep, depth - 2, &mut unit);
     rep.note(format!("C16: {} non-initial start histories (tombstones then clear, two interior tombstones, emptied by pops, ...) each followed by all op sequences to depth {} (pair/SpyVec) / {} (whole/Vec); the cloning explorers copy the deque before every op (exactly-fitting capacity), the straight explorer re-executes all histories to depth {} on one object", prefixes().len(), depth - 1, depth - 2, depth - 2));
